@@ -279,6 +279,20 @@ def ftdSpecOp (a : List String) : String :=
     " ".intercalate (toString ns.length :: ns.map fun n => toString (ftEncode tmax (some (max 0 y).toNat) n))
   | _ => "ERR:proto"
 
+/-- single entries of the documented encoding: `ftspecat <bits> n…` / `ftdspecat <y> <bits> n…` (used by the witness search
+    to judge ONE entry of a table that is too large for `ftspec` / `ftdspec`) -/
+def ftSpecAtOp (withY : Bool) (a : List String) : String :=
+  match a.mapM parseInt? with
+  | some l =>
+    let (y?, rest) := if withY then (l.head?.map fun y => (max 0 y).toNat, l.drop 1) else (none, l)
+    match rest with
+    | bits :: ns =>
+      if bits = 16 ∨ bits = 32 then
+        " ".intercalate (ns.map fun n => toString (ftEncode (tmaxOf bits.toNat) y? n.toNat))
+      else "ERR:proto"
+    | _ => "ERR:proto"
+  | none => "ERR:proto"
+
 /-- `to_index n` / `to_number i` -/
 def ftIdxOp (a : List String) : String :=
   match natArgsT a with
@@ -365,6 +379,8 @@ def tablesOps : String → Option (List String → String)
   | "ftdhash" => some (ftdOp ftHash)
   | "ftspec" => some ftSpecOp
   | "ftdspec" => some ftdSpecOp
+  | "ftspecat" => some (ftSpecAtOp false)
+  | "ftdspecat" => some (ftSpecAtOp true)
   | "ftidx" => some ftIdxOp
   | "ftnum" => some ftNumOp
   | "ftidxspec" => some ftIdxSpecOp
